@@ -59,19 +59,22 @@ func (o orig) addAll(p orig) orig {
 }
 
 type fnCtx struct {
-	a      *effAnalysis
-	recv   *types.Var
-	params map[*types.Var]int
-	consts map[*types.Var]bool // parameters with a known literal bool value
-	locals map[*types.Var]orig // origins of local variables (fixpoint): everything reachable from the value
-	own    map[*types.Var]orig // ... and the memory the value itself refers to (its array, its pointee)
-	shallow bool               // origins() is asked for the latter
-	results []*types.Var       // named results
-	lits   map[*types.Var]*ast.FuncLit
+	a       *effAnalysis
+	recv    *types.Var
+	params  map[*types.Var]int
+	consts  map[*types.Var]bool // parameters with a known literal bool value
+	locals  map[*types.Var]orig // origins of local variables (fixpoint): everything reachable from the value
+	own     map[*types.Var]orig // ... and the memory the value itself refers to (its array, its pointee)
+	shallow bool                // origins() is asked for the latter
+	results []*types.Var        // named results
+	lits    map[*types.Var]*ast.FuncLit
 	// closure parameters: origins collected from the call sites of the closure variable
 	body ast.Node
 	eff  effSet
 	name string
+	// the receiver and the parameters that are assigned to, or whose address is taken, somewhere
+	// in the body: they need not point to the object they were passed any more
+	assigned map[*types.Var]bool
 }
 
 type effAnalysis struct {
@@ -430,6 +433,82 @@ func (c *fnCtx) retain(dst, src orig, what string, n ast.Node) {
 	}
 }
 
+// ownRoot: if e denotes the struct a pointer receiver or a pointer parameter points to, or a
+// struct-valued field of it reached without going through a further pointer, slice or map -
+// memory of that object itself, as opposed to memory the object can reach - the label of the
+// root ("recv", "param:i"); otherwise "".
+func (c *fnCtx) ownRoot(e ast.Expr) string {
+	switch x := e.(type) {
+	case *ast.ParenExpr:
+		return c.ownRoot(x.X)
+	case *ast.Ident:
+		v, ok := c.a.info.ObjectOf(x).(*types.Var)
+		if !ok {
+			return ""
+		}
+		if _, isPtr := v.Type().Underlying().(*types.Pointer); !isPtr {
+			return ""
+		}
+		if c.assigned[v] {
+			return "" // the variable may have come to point elsewhere
+		}
+		if c.recv != nil && v == c.recv {
+			return "recv"
+		}
+		if i, ok := c.params[v]; ok {
+			return fmt.Sprintf("param:%d", i)
+		}
+	case *ast.StarExpr:
+		if id, ok := x.X.(*ast.Ident); ok {
+			return c.ownRoot(id)
+		}
+	case *ast.SelectorExpr:
+		if _, ok := c.a.info.Selections[x]; !ok {
+			return ""
+		}
+		if id, ok := x.X.(*ast.Ident); ok {
+			if r := c.ownRoot(id); r != "" {
+				return r
+			}
+		}
+		if t := c.typeOf(x.X); t != nil {
+			if _, ok := t.Underlying().(*types.Struct); ok {
+				return c.ownRoot(x.X)
+			}
+		}
+	}
+	return ""
+}
+
+func ownKey(root string) string {
+	if root == "recv" {
+		return "recvown"
+	}
+	return "paramown:" + strings.TrimPrefix(root, "param:")
+}
+
+// promoted: the method called is found through embedded fields of the receiver expression
+func (c *fnCtx) promoted(call *ast.CallExpr) bool {
+	if sel, ok := call.Fun.(*ast.SelectorExpr); ok {
+		if s, ok := c.a.info.Selections[sel]; ok {
+			return len(s.Index()) > 1
+		}
+	}
+	return false
+}
+
+// ownField: an assignment target that is a field of the object a pointer receiver or parameter
+// points to (or that whole object, `*p = ...`): the label of the root, or "".
+func (c *fnCtx) ownField(l ast.Expr) string {
+	switch x := l.(type) {
+	case *ast.ParenExpr:
+		return c.ownField(x.X)
+	case *ast.SelectorExpr, *ast.StarExpr:
+		return c.ownRoot(x)
+	}
+	return ""
+}
+
 func (c *fnCtx) write(o orig, what string, n ast.Node) {
 	for k := range o {
 		switch {
@@ -761,6 +840,36 @@ func (a *effAnalysis) newCtx(fd *ast.FuncDecl, consts map[int]bool) *fnCtx {
 			}
 			i++
 		}
+	}
+	c.assigned = map[*types.Var]bool{}
+	if fd.Body != nil {
+		mark := func(e ast.Expr) {
+			if id, ok := e.(*ast.Ident); ok {
+				if v, ok := a.info.ObjectOf(id).(*types.Var); ok {
+					c.assigned[v] = true
+				}
+			}
+		}
+		ast.Inspect(fd.Body, func(n ast.Node) bool {
+			switch x := n.(type) {
+			case *ast.AssignStmt:
+				for _, l := range x.Lhs {
+					mark(l)
+				}
+			case *ast.UnaryExpr:
+				if x.Op == token.AND {
+					mark(x.X)
+				}
+			case *ast.RangeStmt:
+				if x.Key != nil {
+					mark(x.Key)
+				}
+				if x.Value != nil {
+					mark(x.Value)
+				}
+			}
+			return true
+		})
 	}
 	return c
 }
@@ -1124,7 +1233,11 @@ func (c *fnCtx) stmt(n ast.Node) {
 			if id, ok := l.(*ast.Ident); ok && (id.Name == "_" || s.Tok == token.DEFINE) {
 				continue
 			}
-			c.write(c.locOrigins(l), "assignment", l)
+			if root := c.ownField(l); root != "" {
+				c.eff.add(ownKey(root), c.where(l)+" assignment")
+			} else {
+				c.write(c.locOrigins(l), "assignment", l)
+			}
 			if len(s.Lhs) == len(s.Rhs) {
 				if t := c.typeOf(s.Rhs[i]); t == nil || isRef(t) {
 					c.retain(c.locOrigins(l), c.deep(s.Rhs[i]), "assignment", l)
@@ -1153,7 +1266,11 @@ func (c *fnCtx) stmt(n ast.Node) {
 			}
 		}
 	case *ast.IncDecStmt:
-		c.write(c.locOrigins(s.X), "inc/dec", s)
+		if root := c.ownField(s.X); root != "" {
+			c.eff.add(ownKey(root), c.where(s)+" inc/dec")
+		} else {
+			c.write(c.locOrigins(s.X), "inc/dec", s)
+		}
 	case *ast.RangeStmt:
 		if s.Tok == token.ASSIGN {
 			for _, e := range []ast.Expr{s.Key, s.Value} {
@@ -1320,6 +1437,35 @@ func (c *fnCtx) mapEffects(call *ast.CallExpr, fn *types.Func, s effSet) {
 	for k, w := range s {
 		what := "via " + fn.Name() + " (" + w + ")"
 		switch {
+		case k == "recvown":
+			// the callee writes fields of its receiver object itself, not what that object reaches
+			rx := c.recvExprOf(call)
+			if rx == nil {
+				c.eff.add("other:receiver effect without receiver", c.where(call))
+				continue
+			}
+			if c.promoted(call) {
+				// the method is promoted through an embedded field: its receiver is some part of
+				// rx, possibly behind an embedded pointer - anything rx reaches
+				o := c.deep(rx)
+				o.addAll(c.locOriginsIfAddr(rx))
+				c.write(o, what, call)
+				continue
+			}
+			if root := c.ownRoot(rx); root != "" {
+				c.eff.add(ownKey(root), c.where(call)+" "+what)
+				continue
+			}
+			o := orig{}
+			_, ptrRecv := sig.Recv().Type().(*types.Pointer)
+			_, exprIsPtr := c.typeOf(rx).Underlying().(*types.Pointer)
+			_, exprIsIface := c.typeOf(rx).Underlying().(*types.Interface)
+			if ptrRecv && !exprIsPtr && !exprIsIface {
+				o.addAll(c.locOrigins(rx)) // &rx taken implicitly
+			} else {
+				o.addAll(c.memOf(rx)) // the object the pointer or the interface value refers to
+			}
+			c.write(o, what, call)
 		case k == "recv":
 			rx := c.recvExprOf(call)
 			if rx == nil {
@@ -1338,6 +1484,22 @@ func (c *fnCtx) mapEffects(call *ast.CallExpr, fn *types.Func, s effSet) {
 			}
 			o.addAll(c.origins(rx))
 			c.write(o, what, call)
+		case strings.HasPrefix(k, "paramown:"):
+			// the callee writes fields of the object its pointer parameter points to, not what
+			// that object reaches
+			var i int
+			fmt.Sscanf(k, "paramown:%d", &i)
+			if sig.Variadic() && i >= sig.Params().Len()-1 {
+				for _, a := range call.Args[min(i, len(call.Args)):] {
+					c.write(c.origins(a), what, call)
+				}
+			} else if i < len(call.Args) {
+				if root := c.ownRoot(call.Args[i]); root != "" {
+					c.eff.add(ownKey(root), c.where(call)+" "+what)
+				} else {
+					c.write(c.memOf(call.Args[i]), what, call)
+				}
+			}
 		case strings.HasPrefix(k, "param:"):
 			var i int
 			fmt.Sscanf(k, "param:%d", &i)
@@ -1394,8 +1556,11 @@ func (c *fnCtx) mapEffects(call *ast.CallExpr, fn *types.Func, s effSet) {
 					}
 					for ek, ew := range c.a.summary(target, nil) {
 						w2 := "via " + target.Name() + " handed to " + fn.Name() + " (" + ew + ")"
+						if strings.HasPrefix(ek, "paramown:") {
+							ek = "param:" + strings.TrimPrefix(ek, "paramown:") // over-approximated
+						}
 						switch {
-						case ek == "recv":
+						case ek == "recv" || ek == "recvown":
 							if recvExpr != nil {
 								o := c.deep(recvExpr)
 								o.addAll(c.locOriginsIfAddr(recvExpr))
@@ -1546,12 +1711,12 @@ func (c *fnCtx) funcValueCall(call *ast.CallExpr, v *types.Var) {
 					sub := c.a.litSummary(li, consts)
 					// the literal's receiver effects are effects on the receiver of the source call
 					for k, w := range sub {
-						if k == "recv" {
+						if k == "recv" || k == "recvown" {
 							if rx := c.recvExprOf(src); rx != nil {
 								o := c.origins(rx)
 								c.write(o, "via closure of "+fn.Name()+" ("+w+")", call)
 							}
-						} else if strings.HasPrefix(k, "param:") {
+						} else if strings.HasPrefix(k, "param:") || strings.HasPrefix(k, "paramown:") {
 							c.eff.add("other:closure writes a parameter of "+fn.Name(), c.where(call))
 						} else {
 							c.eff.add(k, c.where(call)+" via closure of "+fn.Name())
@@ -1732,7 +1897,7 @@ func genEffects(p *pkg, out string) {
 				findings = append(findings, finding{k, e2, s[e]})
 				continue
 			}
-			if strings.HasPrefix(e, "param:") {
+			if strings.HasPrefix(e, "param:") || strings.HasPrefix(e, "paramown:") {
 				// the caller's own writer / buffer: WriteTo(w), dump(w), Dump(w, p), fill(b, i)
 				if name == "WriteTo" || name == "dump" || name == "Dump" || name == "fill" {
 					continue
@@ -1805,6 +1970,10 @@ func genEffects(p *pkg, out string) {
 			switch {
 			case isDec && strings.HasPrefix(e, "retain|recv|param:"):
 				retains = append(retains, finding{k, e, s[e]})
+			case isDec && e == "param:0":
+				// the decoder writes into the bytes it was given (an append into the spare
+				// capacity of the caller's read buffer included)
+				retains = append(retains, finding{k, "writes " + e, s[e]})
 			case isRead && strings.HasPrefix(e, "result|0|param:"):
 				retains = append(retains, finding{k, e, s[e]})
 			}
@@ -1827,7 +1996,7 @@ func genEffects(p *pkg, out string) {
 		}
 		fmt.Fprintf(&b, "(%q, %q, %q)", f.method, f.effect, f.where)
 	}
-	b.WriteString("].\n\n(* the decoders: a receiver left holding a reference into the data argument, a returned packet\n   that reaches into the reader or a package-level variable: (function, what, where) *)\nDefinition g_decoder_retains : list (string * string * string) :=\n  [")
+	b.WriteString("].\n\n(* the decoders: a receiver left holding a reference into the data argument, a write into the\n   data argument (its spare capacity included), a returned packet that reaches into the reader\n   or a package-level variable: (function, what, where) *)\nDefinition g_decoder_retains : list (string * string * string) :=\n  [")
 	for i, f := range retains {
 		if i > 0 {
 			b.WriteString(";\n   ")
@@ -1858,7 +2027,7 @@ func genEffects(p *pkg, out string) {
 		"Lemma sync_readonly_effects : g_readonly_effects = [].\nProof. reflexivity. Qed.\n\n" +
 		"(* no function of the package keeps state between calls in package-level variables *)\n" +
 		"Lemma sync_no_global_state : g_global_effects = [].\nProof. reflexivity. Qed.\n\n" +
-		"(* no decoder leaves the packet holding a reference into the bytes it was given *)\n" +
+		"(* no decoder leaves the packet holding a reference into the bytes it was given, or writes them *)\n" +
 		"Lemma sync_decoders_copy : g_decoder_retains = [].\nProof. reflexivity. Qed.\n\n" +
 		"Lemma sync_decoders_covered : List.length g_decoders = 27%nat.\nProof. reflexivity. Qed.\n\n" +
 		"(* and the analysis covered the API the model calls read-only *)\n" +
